@@ -30,6 +30,8 @@ type stream struct {
 
 	isDetaching bool
 	isAttached  bool
+	// isBlocked is true while the owner waits in blockGet; guarded by mu
+	isBlocked bool
 
 	first *Event
 	last  *Event
@@ -138,10 +140,12 @@ func (s *stream) blockGet() *Event {
 	}
 	for s.first == nil {
 		s.blockTime = time.Now()
+		s.isBlocked = true
 		s.streamer.makeBlocked(s)
 		verifTrace(vtStreamBlock, s, 0, 0, 0, 0)
 		s.cond.Wait()
 		s.streamer.resetBlocked(s)
+		s.isBlocked = false
 	}
 	event := s.get()
 	s.mu.Unlock()
@@ -173,6 +177,11 @@ func (s *stream) tryUnblock() bool {
 	}
 
 	s.mu.Lock()
+	// the heartbeat works on a copy of the blocked list: the stream may have been unblocked since
+	if !s.isBlocked {
+		s.mu.Unlock()
+		return false
+	}
 	if time.Since(s.blockTime) < s.streamer.eventTimeout {
 		s.mu.Unlock()
 		return false
